@@ -242,7 +242,7 @@ def _source(rng):
 
 
 def generate(rng, tier):
-    n = 150 if tier == "quick" else 1800
+    n = 120 if tier == "quick" else 1800
     cases = []
     for i in range(n):
         schemas = [_source(rng)]
@@ -256,7 +256,7 @@ def generate(rng, tier):
         cases.append(_case(schemas, steps))
     for _ in range(25 if tier == "quick" else 300):
         cases.append(_typed_equal_case(rng))
-    for _ in range(40 if tier == "quick" else 500):
+    for _ in range(30 if tier == "quick" else 500):
         cases.append(_options_matrix_case(rng))
     return cases
 
